@@ -256,7 +256,8 @@ def check(run):
             if prng.random() < 0.08 and len(live) > 1:
                 return prng.choice([z for z in live if z != t])
             return t
-        rec, total, counts = run_schedule([app, app2] if _ % 2 else app, W, rn, plan, 1, baseline, repo)
+        # (two applications that have served the same number of requests so far: identifiers are unique per process, not per application)
+        rec, total, counts = run_schedule([build(W), build(W)] if _ % 2 else app, W, rn, plan, 1, baseline, repo)
         tid += 1
         rec['tid'] = tid
         rec['_kind'] = 'random multi-preemption' + (' (two applications)' if _ % 2 else '')
